@@ -15,13 +15,14 @@ import sys
 from pathlib import Path
 from typing import IO, TYPE_CHECKING, List, Optional, Set, Tuple
 
-from libcst import Module, parse_module
+from libcst import Import, ImportStar, Module, parse_module
 from libcst.codemod import CodemodContext
 from libcst.codemod.visitors import (
     ApplyTypeAnnotationsVisitor,
     GatherImportsVisitor,
     ImportItem,
 )
+from libcst.helpers import get_absolute_module_from_package_for_import
 
 from monkeytype import trace
 from monkeytype.config import Config
@@ -147,19 +148,30 @@ class HandlerError(Exception):
 
 
 def _all_import_items(gatherer: GatherImportsVisitor) -> Set[ImportItem]:
-    """Every import the visited module makes.
+    """Every import the visited module makes, read off its import statements.
 
-    symbol_mapping only keeps the last import bound to each name, so an import
-    whose name is bound again later (e.g. by a function-local import) would
-    otherwise be missed.
+    The gatherer's name-keyed views drop information: symbol_mapping keeps only
+    the last import bound to each name, and nothing is recorded for an explicit
+    import from a module that is also star-imported.
     """
-    items = set(gatherer.symbol_mapping.values())
-    items.update(ImportItem(m) for m in gatherer.module_imports)
-    items.update(ImportItem(m, alias=a) for m, a in gatherer.module_aliases.items())
-    for module, objs in gatherer.object_mapping.items():
-        items.update(ImportItem(module, obj_name=o) for o in objs)
-    for module, aliases in gatherer.alias_mapping.items():
-        items.update(ImportItem(module, obj_name=o, alias=a) for o, a in aliases)
+    items: Set[ImportItem] = set()
+    for node in gatherer.all_imports:
+        if isinstance(node, Import):
+            for name in node.names:
+                items.add(ImportItem(name.evaluated_name, alias=name.evaluated_alias))
+        elif not isinstance(node.names, ImportStar):
+            module = get_absolute_module_from_package_for_import(
+                gatherer.context.full_package_name, node
+            )
+            if module is not None:
+                for name in node.names:
+                    items.add(
+                        ImportItem(
+                            module,
+                            obj_name=name.evaluated_name,
+                            alias=name.evaluated_alias,
+                        )
+                    )
     return items
 
 
@@ -175,15 +187,8 @@ def get_newly_imported_items(
     gatherer = GatherImportsVisitor(context)
     source_module.visit(gatherer)
     source_imports = _all_import_items(gatherer)
-    # Once the source has `from m import *`, the gatherer no longer records the
-    # names it imports from m explicitly: never take imports from m for new.
-    star_imported = {m for m, objs in gatherer.object_mapping.items() if "*" in objs}
 
-    return [
-        item
-        for item in set(stub_imports).difference(source_imports)
-        if item.module_name not in star_imported
-    ]
+    return list(set(stub_imports).difference(source_imports))
 
 
 def apply_stub_using_libcst(
